@@ -320,6 +320,11 @@ def embedded_files(ctx):
             if it == 1:
                 A = np.zeros((n, n), int)
             w = np.array(graphs.weights(rng, n))
+            if rng.random() < 0.35:
+                w = np.ones(n)            # unit weights are weights too
+            # a network that was saved before with other weights
+            w_before = np.array(graphs.weights(rng, n)) \
+                if rng.random() < 0.4 else None
             lat = np.array([float(rng.randrange(-80, 81, 5))
                             for _ in range(n)])
             lon = np.array([float(rng.randrange(-170, 171, 5))
@@ -356,7 +361,9 @@ def embedded_files(ctx):
                               ("ClimateNetwork", climate)):
                 key = {"A": A.tolist(), "directed": directed,
                        "w": w.tolist(), "lat": lat.tolist(),
-                       "lon": lon.tolist(), "class": cname}
+                       "lon": lon.tolist(), "class": cname,
+                       "saved_before_with": None if w_before is None
+                       else w_before.tolist()}
                 tags = {"edgeless": not has, "single_node": n == 1,
                         "class": cname}
                 tmp = tempfile.mkdtemp(prefix="c05_", dir="/var/tmp")
@@ -372,6 +379,11 @@ def embedded_files(ctx):
                             net, load, k = mk()
                             if has:
                                 net.set_link_attribute("lw", W)
+                            if w_before is not None:
+                                net.node_weights = w_before
+                                net.save(tuple(f + ".old" for f in fns[:k]),
+                                         fileformat=fmt)
+                                net.node_weights = w
                             net.save(tuple(fns[:k]), fileformat=fmt)
                             ld = load(tuple(fns[:k]), fileformat=fmt,
                                       silence_level=3)
